@@ -8,6 +8,17 @@ from sim import core, defsim, histsim, runner, streamsim, subsim
 
 # ----------------------------------------------------------------------------
 def _account_stream(stats, plan, tr):
+    if plan.get('engine') == 'defsim':
+        for it in plan['items']:
+            if it['kind'] == 'baddef':
+                k = 'definition:' + streamsim._fk(it['fault'])
+                stats.faults_fired[k] = stats.faults_fired.get(k, 0) + 1
+                stats.probe('damaged_definition_%s' % it['how'])
+            if it['kind'] == 'orphan':
+                stats.probe('data_messages_over_ids_only_a_damaged_definition_defines')
+        stats.probe('sessions_with_damaged_definition_messages')
+        stats.steps += len(plan['items'])
+        return
     fam = plan['family']
     if fam in ('c11', 'c12', 'c17-stream'):
         stats.steps += len(plan['items'])
@@ -148,7 +159,7 @@ def c12(tier):
     return runner.check_main(
         'C12', tier, streamsim, 'streamsim',
         [('c12', 1500, 40000), ('c12-eof', 400, 12000), ('c12-enum', 48, 1500), ('c12-trunc', 60, 1200),
-         ('c12-tail', 200, 4000)],
+         ('c12-tail', 200, 4000), ('c12-def', 250, 8000, 'defsim')],
         'fault_enumeration',
         'seeded streams of 2..8 messages, each message damaged with seeded probability by one of {stopsig, '
         'undef_el, undef_seq, len-, len+} (every subset of damaged messages occurs), full/info-only, with and '
